@@ -213,18 +213,17 @@ Proof.
     pose proof (fill_spec d _ _ _ Hd Ef) as Hs. unfold bend in Hs. simpl in Hs.
     destruct st0.
     + destruct (init_bufs d (S i) rs) as [bs' st'] eqn:Ei. intro H; inversion H; subst.
-      specialize (IH _ _ _ Ei). Show. destruct st; auto.
+      specialize (IH _ _ _ Ei). destruct st; [| exact IH | apply Exists_cons_tl; exact IH].
       * destruct IH as [A [B [C D]]]. destruct Hs as [W [_ [S1 S2]]].
         split; [constructor; auto|]. split; [unfold pending in *; simpl; rewrite B, S1; auto|].
         split.
         -- intros R HR. inversion HR; subst. constructor; [rewrite S1; auto | apply C; auto].
         -- intro e. rewrite !Exists_cons, D. unfold bend. rewrite S2. tauto.
-      * apply Exists_cons_tl; auto.
-    + intro H. specialize (IH _ _ _ H). destruct Hs as [S1 S2]. destruct st; auto.
+    + intro H. specialize (IH _ _ _ H). destruct Hs as [S1 S2].
+      destruct st; [| exact IH | apply Exists_cons_tl; exact IH].
       * destruct IH as [A [B [C D]]]. split; auto. split; [rewrite S1; auto|]. split.
         -- intros R HR. inversion HR; subst. auto.
         -- intro e. rewrite Exists_cons, D, S2. split; auto. intros [?|?]; [discriminate|auto].
-      * apply Exists_cons_tl; auto.
     + intro H; inversion H; subst. apply Exists_cons_hd. tauto.
 Qed.
 
